@@ -42,7 +42,8 @@ def harness_bin(pid):
 # build steps
 
 def regenerate():
-    rc, out = sh([sys.executable, os.path.join(VERIF, 'tools', 'gen_lean.py')])
+    with lake_lock():
+        rc, out = sh([sys.executable, os.path.join(VERIF, 'tools', 'gen_lean.py')])
     try:
         rep = json.loads(out)
     except Exception:
@@ -50,8 +51,27 @@ def regenerate():
     return rep
 
 
+class lake_lock:
+    """Checks of different properties may run concurrently; their `lake build`s share one build directory, so they
+    are serialised with an flock (released by the kernel if the holder dies; the case generation and the drivers,
+    which dominate the run time, stay parallel)."""
+    def __enter__(self):
+        import fcntl
+        d = os.path.join(VERIF, 'work', 'locks')
+        os.makedirs(d, exist_ok=True)
+        self.f = open(os.path.join(d, 'lake.lock'), 'w')
+        fcntl.flock(self.f, fcntl.LOCK_EX)
+        return self
+
+    def __exit__(self, *a):
+        import fcntl
+        fcntl.flock(self.f, fcntl.LOCK_UN)
+        self.f.close()
+
+
 def lake_build(targets):
-    rc, out = sh(['lake', 'build'] + targets, cwd=LEAN, timeout=3000)
+    with lake_lock():
+        rc, out = sh(['lake', 'build'] + targets, cwd=LEAN, timeout=3000)
     return rc == 0, out
 
 
@@ -94,7 +114,8 @@ def audit(pid, theorems):
     path = os.path.join('BddVerif', 'Audit', pid + '.lean')
     if not os.path.exists(os.path.join(LEAN, path)):
         return {}, 'missing ' + path
-    rc, out = sh(['lake', 'env', 'lean', path], cwd=LEAN, timeout=1200)
+    with lake_lock():
+        rc, out = sh(['lake', 'env', 'lean', path], cwd=LEAN, timeout=1200)
     res = {}
     for m in re.finditer(r"'([^']+)' depends on axioms: \[([^\]]*)\]", out.replace('\n', ' ')):
         res[m.group(1)] = [a.strip() for a in m.group(2).split(',') if a.strip()]
